@@ -229,6 +229,46 @@ func (b *bridgeHist) mineMalformedV1() {
 	}
 }
 
+// mineLookalikeV0 mines outputs that are near misses of the version-0 deposit script of (key, EVM address): the same
+// witness program under another witness version, one program bit flipped, a program one byte short. Claimed as
+// version-0 deposits of that key and address they must never be credited.
+func (b *bridgeHist) mineLookalikeV0() {
+	r := b.lh.r
+	key := b.keys[r.Intn(len(b.keys))]
+	evm := b.newEvm()
+	sc := expectedDepositScripts(key, evm, b.magic, 0)
+	if sc == nil || len(sc[0]) < 34 {
+		return
+	}
+	s := sc[0]
+	mut := func(f func(m []byte) []byte) []byte { return f(append([]byte(nil), s...)) }
+	layouts := [][]byte{
+		mut(func(m []byte) []byte { // the other of the two witness versions in use
+			if m[0] == 0x00 {
+				m[0] = 0x51
+			} else {
+				m[0] = 0x00
+			}
+			return m
+		}),
+		mut(func(m []byte) []byte { m[0] = 0x52; return m }),                             // a future witness version
+		mut(func(m []byte) []byte { m[2+r.Intn(32)] ^= 1 << uint(r.Intn(8)); return m }), // one program bit
+		mut(func(m []byte) []byte { m[1] = 0x1f; return m[:33] }),                        // program one byte short
+	}
+	var txs []*wireMsgTx
+	txs = append(txs, b.bc.CoinbaseTx(b.bc.Tip+1))
+	idxs := []int{}
+	for _, l := range layouts {
+		idxs = append(idxs, len(txs))
+		txs = append(txs, b.bc.FillerTx(wireOut(50_000, l)))
+	}
+	blk := b.bc.Mine(txs)
+	for k, i := range idxs {
+		d := &depTruth{Block: blk, Index: i, Raw: blk.Raw[i], Txid: blk.Txids[i], Vout: 0, Value: 50_000, Version: 0, Key: key, Evm: evm, Malformed: true, Layout: 100 + k}
+		b.malformed = append(b.malformed, d)
+	}
+}
+
 // c03Gen queues one block's worth of Bitcoin activity, votes and deposit submissions.
 func c03Gen(b *bridgeHist, blk int, muts []depMutator) {
 	lh := b.lh
@@ -247,8 +287,12 @@ func c03Gen(b *bridgeHist, blk int, muts []depMutator) {
 	}
 	// Bitcoin side
 	switch {
-	case blk%9 == 7 && len(b.malformed) < 10:
-		b.mineMalformedV1()
+	case blk%9 == 7 && len(b.malformed) < 30:
+		if (blk/9)%2 == 0 {
+			b.mineMalformedV1()
+		} else {
+			b.mineLookalikeV0()
+		}
 	case blk%9 == 4:
 		if b.depositBurst && r.Intn(2) == 0 {
 			b.mineDeposits(9+r.Intn(7), false)
@@ -333,7 +377,7 @@ func c03Gen(b *bridgeHist, blk int, muts []depMutator) {
 	for _, t := range b.malformed {
 		if t.Block.Height <= b.votedTip && t.Attempts < 2 && r.Intn(3) == 0 {
 			t.Attempts++
-			b.ops = append(b.ops, b.depositsOp([]*bitcointypes.Deposit{b.genuineDeposit(t)}, hdrsFor([]*depTruth{t}), fmt.Sprintf("malformed-v1-layout-%d", t.Layout), false))
+			b.ops = append(b.ops, b.depositsOp([]*bitcointypes.Deposit{b.genuineDeposit(t)}, hdrsFor([]*depTruth{t}), fmt.Sprintf("lookalike-layout-%d", t.Layout), false))
 		}
 	}
 	// coinbase deposits: under position 0 and under aliased positions, before and after maturity
